@@ -105,7 +105,8 @@ def vector_function_cases(modname: str, mod: Any, fname: str, fn: Any, thorough:
     if any(p.kind == "free" for p in params) and not args.resolve_free(fn, params, mod):
         return res
     vecs = [p for p in params if p.kind == "qvector"]
-    if not vecs:
+    seqs = [p for p in params if p.kind in ("seq", "qvseq")]
+    if not vecs and not any(p.kind == "qvseq" for p in params):
         return res
     sig = catalogue.spec(fn)["signature"]
     optional = []
@@ -119,7 +120,11 @@ def vector_function_cases(modname: str, mod: Any, fname: str, fn: Any, thorough:
             optional.append((p.name, [None, p.default]))
     patterns = list(DIRS) if (thorough or len(vecs) <= 2) else ["generic", "x", "-x", "y", "xy"]
     key0 = f"{modname}.{fname}"
+    # sequences: elements that are distinct objects, or one and the same object repeated (identical
+    # particles are naturally written [m, m, m])
+    seq_shapes = ["distinct", "same-object"] if seqs else ["distinct"]
     for combo in itertools.product(patterns, repeat=len(vecs)):
+      for seq_shape in seq_shapes:
         for opts in itertools.product(*[menu for _, menu in optional]) if optional else [()]:
             kw = {}
             for p in params:
@@ -130,8 +135,10 @@ def vector_function_cases(modname: str, mod: Any, fname: str, fn: Any, thorough:
                     kw[p.name] = QuantityVector([args.quantity(p.dim, p.m0 * c) for c in d])
                 else:
                     kw[p.name] = args.realise_param(p)
-            tag = ",".join(combo) + "".join(f";{n}={v}" for (n, _), v in zip(optional, opts) if v is
-                not None)
+                    if seq_shape == "same-object" and p.kind == "seq":
+                        kw[p.name] = [kw[p.name][0]] * len(kw[p.name])
+            tag = ",".join(combo) + (f";sequences:{seq_shape}" if seqs else "") + "".join(
+                f";{n}={v}" for (n, _), v in zip(optional, opts) if v is not None)
             for (n, _), v in zip(optional, opts):
                 if v is not None:
                     kw[n] = v
